@@ -157,7 +157,8 @@ def clearFile (st : Index) (f : Path) (v : Version) : Index :=
 def preState (cl : Bool) (st : Index) (f : Path) (v : Version) (fr : FileRec) : Index :=
   let st1 := clearFile st f v
   let st2 := if cl then st1.cleanupDefs f else st1
-  { st2 with modNames := ainsert st2.modNames f fr.modNames, epoch := st2.epoch + 1 }
+  -- `invalidate_cycle_cache()` once per successful analysis (repaired E3), then once per definition
+  { st2 with modNames := ainsert st2.modNames f fr.modNames, epoch := st2.epoch + 1, version := st2.version + 1 }
 
 /-- `analyze_file_internal(path, text, cleanup_previous)`; the Boolean result is "panicked". -/
 def analyze (pfx : Path) (cleanup : Bool) (st : Index) (f : Path) (v : Version) : Index × Bool :=
